@@ -70,11 +70,12 @@ ASSUMPTIONS = [
     'IDW references skip elements whose k-nearest-neighbour set is not unique (equidistant candidates at the cut)',
 ]
 
-RT = 1e-10            # float64: summation order only (measured <= 5.6e-15 per box, <= 1.2e-13 between configurations)
+RT = 1e-12            # float64, per-box statistics relative to the box's pixel magnitude: summation order only (measured <= 5.6e-15)
+RT_PAIR = 1e-10       # float64, between bottleneck configurations / byte orders (measured <= 1.9e-11 of the value)
 RT32_BKG = 5e-4       # float32 / integer input, background statistic relative to the box's pixel magnitude: measured <= 3.4e-6
 RT32_RMS = 1e-5       # same for the RMS statistic: measured <= 4.8e-8
 RT32 = 3e-5           # float32 / integer input, IDW fill / integer bands relative to the data scale: measured <= 7.5e-8
-REL = 1e-9            # relations, relative to the data scale
+REL = 1e-11           # relations, relative to the data magnitude incl. the shift (measured <= 3.4e-15 quick; see report)
 REL32 = 1e-4
 
 
@@ -89,10 +90,10 @@ def selftest():
     # generator classes produce what they claim (independent of photutils)
     rng = np.random.default_rng(5)
     for cls in CLASSES:
-        for _ in range(20):
+        for _ in range(60):
             spec, meta = scenes.make_scene(rng, cls)
             (ny, nx), (by, bx) = meta['shape'], meta['box']
-            assert 3 <= ny <= 70 and 3 <= nx <= 70 and 1 <= by <= ny and 1 <= bx <= nx, (cls, meta)
+            assert 1 <= ny <= 70 and 1 <= nx <= 70 and 1 <= by <= ny and 1 <= bx <= nx, (cls, meta)
             if cls == 'divides':
                 assert ny % by == 0 and nx % bx == 0
             if cls == 'pad_corner':
@@ -221,6 +222,16 @@ def run_case(case):
     case.note('sigma_clip:' + ('none' if spec['sc'] is None else
                                'default' if spec['sc'] == dict(sigma=3.0, maxiters=10) else 'variant'))
     case.note('dtype:' + dt)
+    case.note('magnitude:' + str(meta.get('mag')))
+    if meta.get('pedestal_ratio'):
+        case.note('pedestal_ratio:%g' % meta['pedestal_ratio'])
+    if meta.get('degenerate'):
+        case.note('degenerate:' + meta['degenerate'])
+    if min(meta['shape']) <= 3 and max(meta['shape']) >= 10:
+        case.note('shape_elongated')
+    if min(meta['shape']) == 1:
+        case.note('shape_single_row_or_column')
+    unit = float(meta.get('unit', 1.0)) if dt in ('float64', 'float32') else 1.0
 
     # ---------------- M1 reference -------------------------------------
     tmask = ref.total_mask(data, mask, cov)
@@ -244,7 +255,7 @@ def run_case(case):
     # are not demanded.
     tie_risk = False
     if sc_ref is not None:
-        eps = 1e-9 if dt == 'float64' else 1e-4
+        eps = 1e-13 if dt == 'float64' else 1e-5
         tie_risk = any(v.size and ref.clip_min_margin(v, sc_ref) < eps for v in raws.values())
     good = dataf[~tmask]
     scale = float(np.max(np.abs(good))) if good.size else 1.0
@@ -319,7 +330,7 @@ def run_case(case):
     # counts
     if not np.array_equal(npm, ngood):
         bad = np.argwhere(npm != ngood)
-        tie_eps = 1e-9 if dt == 'float64' else 1e-4
+        tie_eps = 1e-12 if dt == 'float64' else 1e-4
         if sc_ref is not None and all(ref.clip_min_margin(raws[tuple(k)], sc_ref) < tie_eps for k in bad):
             case.skip('clip_tie_within_rounding')
         case.check(False, 'npixels_mesh_vs_count', mech, nbad=len(bad), first=bad[0].tolist(),
@@ -448,49 +459,69 @@ def run_case(case):
         if is_int and mode == 'tie':
             mode = 'mid'
         if mode == 'below':
-            thr = float(vals[0] - 1.0)
+            thr = float(vals[0] - (abs(vals[0]) * 1e-3 + unit))
         elif mode == 'above':
-            thr = float(vals[-1] + 1.0)
+            thr = float(vals[-1] + (abs(vals[-1]) * 1e-3 + unit))
         elif mode == 'tie':
             thr = float(vals[int(rng.integers(0, len(vals)))])
         else:
             k = int(rng.integers(0, len(vals)))
-            thr = float(vals[k] + 0.5) if len(vals) == 1 or k == len(vals) - 1 \
+            thr = float(vals[k] + (abs(vals[k]) * 1e-3 + 0.5 * unit)) if len(vals) == 1 or k == len(vals) - 1 \
                 else float(0.5 * (vals[k] + vals[k + 1]))
             if thr in vals:
+                mode = 'tie'
+        if dt == 'float32':
+            # the library compares the float32 mesh with the threshold in float32: use a representable threshold
+            thr = float(np.float32(thr))
+            if mode == 'mid' and thr in vals:
                 mode = 'tie'
         meta['thr_mode'] = mode
         case.note('filter_threshold:' + mode)
     spec = dict(spec, thr=thr)
     fsize = spec['fsize']
     filtered = fsize != 1
-    # representation of the masks: the unfiltered object above (per-box reference, counts, exclusion) was built
-    # with the representation as drawn. A non-boolean coverage_mask is known to corrupt the full maps (known
-    # finding, judged right below), so the map / relation / configuration checks that follow use the boolean
-    # coverage_mask of the same layout; the representation of `mask` is kept throughout.
-    spec_raw = spec
-    cov_nonbool = cov is not None and spec['cov_repr'][0] != 'bool'
-    if cov_nonbool:
-        spec = dict(spec, cov_repr=('bool', spec['cov_repr'][1]))
-    b = scenes.construct(spec) if (filtered or thr is not None or cov_nonbool) else b1
+    # representation / call form: every object of this case (unfiltered reference object above, relations,
+    # configuration pair) is built with the masks, scalar / pair arguments and data container as drawn; in
+    # addition the outputs must equal those of the plain spelling (boolean C-order masks, python scalars and
+    # tuples, native C-order ndarray) - exactly, except for byte-swapped data (other summation path: rtol).
+    b = scenes.construct(spec) if (filtered or thr is not None) else b1
     out = scenes.outputs(b)
+    forms = spec.get('forms', scenes.PLAIN_FORMS)
     if mask is not None:
-        case.note('mask_repr:%s/%s' % spec_raw['mask_repr'])
+        case.note('mask_repr:%s/%s' % spec['mask_repr'])
     if cov is not None:
-        case.note('coverage_mask_repr:%s/%s' % spec_raw['cov_repr'])
-    plain = ((mask is None or spec_raw['mask_repr'] == scenes.PLAIN)
-             and (cov is None or spec_raw['cov_repr'] == scenes.PLAIN))
-    if not plain:
-        o_plain = scenes.outputs(scenes.construct(dict(spec_raw, mask_repr=scenes.PLAIN, cov_repr=scenes.PLAIN)))
-        o_raw = scenes.outputs(scenes.construct(spec_raw)) if cov_nonbool else out
-        for k in ('mesh', 'rmesh', 'npix', 'med', 'rmed', 'bkg', 'rms'):
-            if cov_nonbool and k in ('bkg', 'rms'):
-                case.close(o_raw[k], o_plain[k], 'coverage_mask_nonbool_map_' + k,
-                           mech=dict(mech, coverage_mask_nonbool=True))
+        case.note('coverage_mask_repr:%s/%s' % spec['cov_repr'])
+    for k_, v_ in forms.items():
+        if v_ not in ('plain', 'C'):
+            case.note('form_%s:%s' % (k_, v_))
+    masks_plain = ((mask is None or spec['mask_repr'] == scenes.PLAIN)
+                   and (cov is None or spec['cov_repr'] == scenes.PLAIN))
+    forms_plain = forms == scenes.PLAIN_FORMS
+    exp_unit = scenes.expected_unit(spec)
+    case.check(all(u_ == str(exp_unit) for u_ in out['units']), 'output_units', dict(mech, data_form=forms['data']),
+               obs=out['units'], exp=exp_unit)
+    if not (masks_plain and forms_plain):
+        plain_forms = scenes.PLAIN_FORMS
+        rrt = 0.0
+        if forms['layout'] == 'big_endian':
+            # byte-swapped data take another summation path (last-bit differences): compared at rtol, and where a
+            # last bit decides (threshold equal to a mesh value, pixel on a clipping bound) the byte order is kept
+            if tie_risk or meta['thr_mode'] == 'tie':
+                plain_forms = dict(scenes.PLAIN_FORMS, layout='big_endian')
+                case.note('call_form_byte_order_kept_at_tie')
             else:
-                case.close(o_raw[k], o_plain[k], 'mask_representation_' + k, mech=mech)
-        case.note('mask_representation_cases')
-        if data.dtype.kind != 'f' or bool(np.isfinite(data).all()):
+                rrt = RT_PAIR
+        o_plain = scenes.outputs(scenes.construct(dict(spec, mask_repr=scenes.PLAIN, cov_repr=scenes.PLAIN,
+                                                       forms=plain_forms)))
+        name = 'mask_representation_' if forms_plain else 'call_form_'
+        for k in ('mesh', 'rmesh', 'npix', 'med', 'rmed', 'bkg', 'rms'):
+            # integer data carried with a unit (NDData(unit=...)): the meshes become float Quantities and the maps are
+            # interpolated in floating point instead of being rounded to the integer dtype: within one count
+            iat = 1.0 if (is_int and exp_unit is not None and k in ('bkg', 'rms')) else 0.0
+            case.close(_fl(out[k]), _fl(o_plain[k]), name + k, rtol=rrt,
+                       atol=(rrt * scale if k != 'npix' else 0.0) + iat, mech=mech)
+        case.note('mask_representation_cases' if forms_plain else 'call_form_cases')
+        if not masks_plain and (data.dtype.kind != 'f' or bool(np.isfinite(data).all())):
             case.note('mask_representation_cases_data_all_finite')
             if (mask is None) != (cov is None):
                 case.note('mask_representation_cases_data_all_finite_single_mask')
@@ -644,8 +675,8 @@ def run_case(case):
             keys = ('mesh', 'rmesh', 'npix', 'med', 'rmed')
             case.note('config_pair_maps_skipped_zoom_mode_constant')
         for k in keys:
-            case.close(_fl(other[k]), _fl(out[k]), 'config_pair_' + k, rtol=RT,
-                       atol=(0.0 if k == 'npix' else RT * scale), mech=mech)
+            case.close(_fl(other[k]), _fl(out[k]), 'config_pair_' + k, rtol=RT_PAIR,
+                       atol=(0.0 if k == 'npix' else RT_PAIR * scale), mech=mech)
         case.note('config_pairs')
 
 
@@ -730,9 +761,11 @@ def _rel_constant(case, spec, meta, nraw, N, mech, is_int):
     if meta['const'] is not None:
         c = meta['const']
     elif dt == 'float64':
-        c = float(scenes._pick(rng, _DYADIC + _GENERIC))
+        c = float(scenes._pick(rng, _DYADIC + _GENERIC)) * float(meta.get('mag_scale', 1.0))
     elif dt == 'float32':
         c = float(scenes._pick(rng, [0.0, 1.0, 7.0, -3.0, 0.5, 64.0]))
+        if meta.get('mag') in ('scale_pow2', 'both'):
+            c *= float(meta['mag_scale'])
     else:
         c = float(scenes._pick(rng, [0, 1, 7, 100]))
     if data.dtype.kind == 'f':
@@ -748,7 +781,10 @@ def _rel_constant(case, spec, meta, nraw, N, mech, is_int):
             return
         raise
     st = ref.box_status(nraw, N, spec['p'])         # nothing is clipped in a constant box
-    dyadic = (c_eff * 1024.0) == np.floor(c_eff * 1024.0) and abs(c_eff) <= 2.0 ** 21
+    # short mantissa (<= 30 bits): sums of up to 4900 equal values are exact in float64, whatever the exponent
+    mant = np.frexp(c_eff)[0] * 2.0 ** 30
+    dyadic = bool(mant == np.floor(mant)) if dt == 'float64' else bool(
+        np.frexp(c_eff)[0] * 2.0 ** 10 == np.floor(np.frexp(c_eff)[0] * 2.0 ** 10))
     exact = dyadic and bool((st == ref.IN).all())
     tol = 0.0 if (exact or c_eff == 0.0) else 1e-13 * abs(c_eff)
     m = dict(mech, const_exact=bool(tol == 0.0))
@@ -783,9 +819,18 @@ def _rel_shift(case, spec, meta, out, off, scale, rel, mech, is_int, int_tol):
             return
         d2 = (data + data.dtype.type(c)).astype(data.dtype)
     else:
-        c = float(scenes._pick(rng, [1.0, -2.0, 0.5, 1024.0, -65536.0, 3.7, -0.01, 1e4]))
+        # the shift is a multiple of the noise amplitude of the image; it is itself a pedestal of up to 1e9 noise
+        # amplitudes (float64) as long as pedestal already present + shift stay below ~2e9
+        unit = float(meta.get('unit', 1.0))
+        ratio = float(meta.get('pedestal_ratio') or 0.0)
+        facs = [1.0, -2.0, 0.5, 1024.0, -65536.0, 3.7, -0.01, 1e4, 2.0 ** 20, -2.0 ** 27, 1e9, -1e8]
         if meta['dtype'] == 'float32':
-            c = float(scenes._pick(rng, [1.0, -2.0, 0.5, 256.0]))
+            facs = [1.0, -2.0, 0.5, 256.0]
+        facs = [f for f in facs if abs(f) + ratio <= 2e9]
+        fac = float(scenes._pick(rng, facs))
+        c = fac * unit
+        if abs(fac) >= 1e6:
+            case.note('shift_is_large_pedestal')
         d2 = (data + data.dtype.type(c)).astype(data.dtype)
         if meta['dtype'] == 'float32':
             fin = np.isfinite(data)
@@ -800,6 +845,11 @@ def _rel_shift(case, spec, meta, out, off, scale, rel, mech, is_int, int_tol):
     case.close(_fl(o2['mesh']), _fl(out['mesh']) + c, 'shift_mesh' + sfx, atol=atol, mech=m)
     case.close(_fl(o2['rmesh']), _fl(out['rmesh']), 'shift_rms_mesh' + sfx, atol=atol, mech=m)
     case.close(o2['npix'], out['npix'], 'shift_npixels', mech=m)
+    if not is_int:
+        nrm = scale + abs(c)
+        sf = '_f32' if meta['dtype'] == 'float32' else ''
+        case.dev('shift_mesh_over_magnitude' + sf, np.max(np.abs(_fl(o2['mesh']) - (_fl(out['mesh']) + c))) / nrm)
+        case.dev('shift_rms_mesh_over_magnitude' + sf, np.max(np.abs(_fl(o2['rmesh']) - _fl(out['rmesh']))) / nrm)
     case.close(_fl(o2['bkg'])[off], _fl(out['bkg'])[off] + c, 'shift_background' + sfx, atol=atol, mech=m)
     case.close(_fl(o2['rms'])[off], _fl(out['rms'])[off], 'shift_background_rms' + sfx, atol=atol, mech=m)
     case.close(_fl(o2['bkg'])[~off], _fl(out['bkg'])[~off], 'shift_fill_unchanged', mech=m)
@@ -823,10 +873,13 @@ def _rel_scale(case, spec, meta, out, off, scale, rel, mech, is_int, int_tol, po
         d2 = (data * data.dtype.type(k)).astype(data.dtype)
         pow2 = False
     elif pow2:
-        k = float(scenes._pick(rng, [2.0, 0.5, 4.0, 1024.0, 2.0 ** -10, 0.25]))
+        ks = [2.0, 0.5, 4.0, 1024.0, 2.0 ** -10, 0.25]
+        if meta['dtype'] == 'float64':
+            ks += [2.0 ** -40, 2.0 ** 30, 2.0 ** -25]
+        k = float(scenes._pick(rng, ks))
         d2 = (data * data.dtype.type(k)).astype(data.dtype)
     else:
-        k = float(scenes._pick(rng, [3.7, 0.013, 10.0, 1e3, 0.3]))
+        k = float(scenes._pick(rng, [3.7, 0.013, 10.0, 1e3, 0.3, 1e-8, 1e7]))
         d2 = (data * data.dtype.type(k)).astype(data.dtype)
         if meta['thr_mode'] == 'tie':
             case.note('scale_skipped_threshold_tie')
@@ -839,6 +892,10 @@ def _rel_scale(case, spec, meta, out, off, scale, rel, mech, is_int, int_tol, po
     case.close(_fl(o2['mesh']), _fl(out['mesh']) * k, 'scale_mesh' + sfx, atol=atol, mech=m)
     case.close(_fl(o2['rmesh']), _fl(out['rmesh']) * k, 'scale_rms_mesh' + sfx, atol=atol, mech=m)
     case.close(o2['npix'], out['npix'], 'scale_npixels', mech=m)
+    if not is_int and not pow2:
+        nrm = scale * k
+        case.dev('scale_mesh_over_magnitude', np.max(np.abs(_fl(o2['mesh']) - _fl(out['mesh']) * k)) / nrm)
+        case.dev('scale_rms_mesh_over_magnitude', np.max(np.abs(_fl(o2['rmesh']) - _fl(out['rmesh']) * k)) / nrm)
     case.close(_fl(o2['bkg'])[off], _fl(out['bkg'])[off] * k, 'scale_background' + sfx, atol=atol, mech=m)
     case.close(_fl(o2['rms'])[off], _fl(out['rms'])[off] * k, 'scale_background_rms' + sfx, atol=atol, mech=m)
     case.close(_fl(o2['bkg'])[~off], _fl(out['bkg'])[~off], 'scale_fill_unchanged', mech=m)
